@@ -664,7 +664,24 @@ fn gen_source_bytes(g: &mut Gen, max_len: usize) -> Vec<u8> {
     let n = g.range(0, max_len as i64) as usize;
     let mut bits: Vec<bool> = Vec::with_capacity(n * 8 + 40);
     while bits.len() < n * 8 {
-        match g.weighted(&[5, 3, 2, 1, 1]) {
+        match g.weighted(&[5, 3, 2, 1, 1, 1]) {
+            5 => {
+                // the shape of an unrestricted-motion-vector code (Table D.3), often longer than
+                // any valid one: 0, then (bit, 1) pairs, then (sign, 0)
+                let pairs = g.range(1, 20) as usize;
+                let fill = g.below(3);
+                bits.push(false);
+                for _ in 0..pairs {
+                    bits.push(match fill {
+                        0 => false,
+                        1 => true,
+                        _ => g.bool(),
+                    });
+                    bits.push(true);
+                }
+                bits.push(g.bool());
+                bits.push(false);
+            }
             4 => {
                 // long zero run (several bytes of zero padding), usually followed by a marker bit
                 let z = g.range(40, 200) as usize;
@@ -707,6 +724,14 @@ fn gen_source_bytes(g: &mut Gen, max_len: usize) -> Vec<u8> {
         }
     }
     bits.truncate(n * 8);
+    if n >= 3 && g.chance(1, 12) {
+        // the data ends exactly with a start code: its final 1 is the very last bit
+        let len = bits.len();
+        for b in bits[len - 17..len - 1].iter_mut() {
+            *b = false;
+        }
+        bits[len - 1] = true;
+    }
     crate::bits::bits_to_bytes(&bits)
 }
 
@@ -912,8 +937,98 @@ fn enum_item(len: usize, i: u64, acc: &mut Acc) {
     }
 }
 
+/// Every *form* of an unrestricted-motion-vector code (Table D.3): 0 to 22 (bit, continue) pairs
+/// with five mantissa patterns, both terminators, at every start phase - valid codes must give
+/// their value, longer ones must be refused (inside a transaction, leaving the reader where it
+/// was), and then the reader must re-deliver what is left.
+fn umv_forms_suite() -> SuiteReport {
+    simple_suite("umv_code_forms", true, |acc| {
+        for pairs in 0..=22usize {
+            for pattern in 0..5u32 {
+                for neg in [false, true] {
+                    for phase in 0..8usize {
+                        let mut bits: Vec<bool> = (0..phase).map(|i| i % 2 == 1).collect();
+                        bits.push(false);
+                        for k in 0..pairs {
+                            bits.push(match pattern {
+                                0 => false,
+                                1 => true,
+                                2 => k % 2 == 0,
+                                3 => k == 0,
+                                _ => k + 1 == pairs,
+                            });
+                            bits.push(true);
+                        }
+                        bits.push(neg);
+                        bits.push(false);
+                        // something after the code
+                        for i in 0..11 {
+                            bits.push(i % 3 == 0);
+                        }
+                        let data = crate::bits::bits_to_bytes(&bits);
+                        let ops = vec![Op::Skip(phase as u32), Op::Block { kind: BlockKind::Transaction, ops: vec![Op::Umv], ending: Ending::Ok, propagate: true }, Op::Read(Ty::U8, 5)];
+                        acc.count(pairs >= 11);
+                        if let Err(m) = check_sequence(&data, SourceKind::Slice, &ops) {
+                            acc.fail(json!({"kind":"params","suite":"umv_forms","pairs":pairs,"pattern":pattern,"negative":neg,"phase":phase}), format!("Table D.3 code form with {} pairs (mantissa pattern {}, {} terminator) at bit {}: {}", pairs, pattern, if neg { "negative" } else { "positive" }, phase, m));
+                            return;
+                        }
+                    }
+                }
+            }
+        }
+        acc.sample(|| json!({"pairs": "0..=22", "mantissa_patterns": ["all 0", "all 1", "alternating", "1 then 0s", "0s then 1"], "terminators": 2, "phases": 8}));
+    })
+}
+
+/// Deeply nested blocks (9 to 16 levels; the parser itself nests about four): a chain of
+/// transactions / unions / look-aheads, a few reads at every level, some levels failing with the
+/// failure absorbed one level up.
+fn deep_nesting_case(g: &mut Gen) -> Verdict {
+    let depth = g.range(9, 16) as usize;
+    let data = gen_source_bytes(g, 40);
+    // build from the innermost level outwards
+    let mut inner: Vec<Op> = vec![gen_flat(g, false, false)];
+    let mut absorbed_failure_below = 0usize;
+    for level in (0..depth).rev() {
+        let kind = *g.pick(&[BlockKind::Transaction, BlockKind::Transaction, BlockKind::Union, BlockKind::Lookahead]);
+        let ending = match g.weighted(&[3, 2]) {
+            0 => Ending::Ok,
+            _ => Ending::Err,
+        };
+        // this level's own reads before and after the nested block
+        let mut ops = Vec::new();
+        for _ in 0..g.range(0, 2) {
+            ops.push(gen_flat(g, false, false));
+        }
+        ops.extend(inner);
+        for _ in 0..g.range(0, 2) {
+            ops.push(gen_flat(g, false, false));
+        }
+        if ending == Ending::Err && level >= 7 {
+            absorbed_failure_below += 1;
+        }
+        // failures are absorbed by the enclosing level (propagate = false)
+        inner = vec![Op::Block { kind, ops, ending, propagate: false }];
+    }
+    let mut ops = inner;
+    ops.push(gen_flat(g, false, false));
+    g.describe(|| json!({"depth": depth, "data_hex": crate::bits::hex(&data), "ops": format!("{:?}", ops)}));
+    match check_sequence(&data, SourceKind::Slice, &ops) {
+        Err(m) => Verdict::fail(m),
+        Ok((key, _, _, _)) => {
+            let mut l: Labels = vec!["nesting depth 9..16"];
+            if absorbed_failure_below > 0 {
+                l.push("a level at depth >= 8 fails and is absorbed one level up");
+            }
+            Verdict::pass_l(absorbed_failure_below > 0, key ^ depth as u64, l)
+        }
+    }
+}
+
 pub fn run(ctx: &Ctx) -> i32 {
     let mut reports = vec![super::regression_suite(ctx)];
+    reports.push(umv_forms_suite());
+    reports.push(tape_suite(ctx, "deeply_nested_blocks", ctx.tier.pick(60_000u64, 1_000_000u64), 400, &deep_nesting_case));
     let len = ctx.tier.pick(2usize, 3usize);
     let items = (alphabet().len() * 8 * fixed_sources().len()) as u64;
     reports.push(exhaustive_suite(ctx, "bounded_exhaustive_sequences", items, &move |i, acc| enum_item(len, i, acc)));
@@ -935,7 +1050,7 @@ pub fn run(ctx: &Ctx) -> i32 {
         ctx,
         reports,
         Summary {
-            rule: "Operation sequences over H263Reader: peek/read for u8,u16,u32,u64,i16,i32,i64 with widths 0..bits+2, signed peek/read, skip, read_u8, read_vlc over random prefix-code tables, read_umv, recognize_start_code(false/true), commit, and nested with_transaction / with_transaction_union / with_lookahead blocks ending in Ok, None or Err, over slice, short-read and growable sources. bounded_exhaustive_sequences enumerates every sequence up to the length bound over a fixed alphabet x 8 start phases x fixed sources (start codes at every bit phase); random_sequences draws sources and sequences (up to 60 ops, nesting 3) from the proptest tape. Oracle: a bit-vector model - values MSB-first, peeks / look-aheads / failed reads / failed or None blocks consume nothing, two's-complement sign extension, over-wide widths and reads past the end are errors without consumption, and after the sequence the reader re-delivers exactly the unconsumed bits; start-code results are judged by a validity predicate (a reported code must be the nearest, at most 8 bits ahead; one within the realignment distance must be reported; in_error finds the nearest or reports end of data). Non-trivial = a rolled-back block, a read straddling the end, or a commit.",
+            rule: "Operation sequences over H263Reader: peek/read for u8,u16,u32,u64,i16,i32,i64 with widths 0..bits+2, signed peek/read, skip, read_u8, read_vlc over random prefix-code tables, read_umv, recognize_start_code(false/true), commit, and nested with_transaction / with_transaction_union / with_lookahead blocks ending in Ok, None or Err, over slice, short-read and growable sources. bounded_exhaustive_sequences enumerates every sequence up to the length bound over a fixed alphabet x 8 start phases x fixed sources (start codes at every bit phase); random_sequences draws sources and sequences (up to 60 ops, nesting 3) from the proptest tape; umv_code_forms enumerates every form of a Table D.3 code (0..22 pairs, five mantissa patterns, both terminators, eight phases); deeply_nested_blocks nests 9..16 blocks with failures absorbed one level up. Oracle: a bit-vector model - values MSB-first, peeks / look-aheads / failed reads / failed or None blocks consume nothing, two's-complement sign extension, over-wide widths and reads past the end are errors without consumption, and after the sequence the reader re-delivers exactly the unconsumed bits; start-code results are judged by a validity predicate (a reported code must be the nearest, at most 8 bits ahead; one within the realignment distance must be reported; in_error finds the nearest or reports end of data). Non-trivial = a rolled-back block, a read straddling the end, or a commit.",
             assumptions: vec![
                 "documented preconditions respected: commit only where every enclosing block ends in success; read_vlc / read_umv (position undefined after failure) only inside blocks that roll back on failure; signed widths >= 1".into(),
             ],
@@ -951,6 +1066,11 @@ pub fn replay(suite: &str, case: &Value) -> Option<Verdict> {
     }
     match suite {
         "random_sequences" => Some(random_case(&mut Gen::new(&super::tape_of(case)?))),
+        "umv_code_forms" => Some(match umv_forms_suite().failure {
+            Some(f) => Verdict::fail(f.msg),
+            None => Verdict::pass(true, 0),
+        }),
+        "deeply_nested_blocks" => Some(deep_nesting_case(&mut Gen::new(&super::tape_of(case)?))),
         "bounded_exhaustive_sequences" => {
             let mut acc = Acc::default();
             enum_item(case["len"].as_u64().unwrap_or(2) as usize, case["item"].as_u64()?, &mut acc);
